@@ -1,4 +1,4 @@
-(* C13: func_fit in terms of the FULL coefficient vector: among all coefficient vectors that carry the prescribed
+(* C13: func_fit_ref in terms of the FULL coefficient vector: among all coefficient vectors that carry the prescribed
    values at the fixed positions, the returned one minimises the weighted chi-square of the data themselves. *)
 From Coq Require Import QArith Qabs Lqa List Bool Lia ZArith.
 From PV Require Import Lib.WLS C13.LinAlg C13.LinAlgProofs C13.Model C13.FitProofs.
@@ -107,7 +107,7 @@ Qed.
 
 (* func_fit_optimal, full form *)
 Theorem func_fit_optimal_full f x y w ncoeff ia ans ifunc res yfit :
-  func_fit f x y w ncoeff ia ans ifunc = Some (res, yfit) -> (2 <= ngood_of y w)%nat ->
+  func_fit_ref f x y w ncoeff ia ans ifunc = Some (res, yfit) -> (2 <= ngood_of y w)%nat ->
   (ncoeff <= length ia)%nat -> Forall (fun v => 0 <= v) w ->
   let ncfit := Nat.min (ngood_of y w) ncoeff in
   let rows := scale_rows ifunc (map (basis_row f ncfit) x) in
